@@ -904,6 +904,76 @@ fn run_as(t: &[&str]) -> CaseOut {
     }
 }
 
+/// OUT-OF-DOMAIN probe (never a violation; the model answers SKIP): drop the `next_row_group`
+/// future while its fetch is pending, then keep reading.  C15 quantifies over futures that are
+/// polled to completion; this records what happens when one is cancelled.
+fn run_cn(t: &[&str]) -> CaseOut {
+    // C15 cn <file> <opts> <drop at row group k>
+    let f = file(t[2]);
+    let o = parse_opts(t[3]);
+    let k: usize = t[4].parse().unwrap();
+    let io = Io {
+        data: f.bytes.clone(),
+        pend: Arc::new(Mutex::new(std::iter::repeat(2usize).take(10_000).collect())),
+        log: Arc::new(Mutex::new(vec![])),
+        bad: Arc::new(Mutex::new(vec![])),
+        in_meta: Arc::new(AtomicBool::new(false)),
+        pidx: o.pidx,
+    };
+    let sync_rows = run_sync(&f, &o).map(|s| rows_of(&s).0 as i64).unwrap_or(-1);
+    let meta = if o.pidx { f.meta_idx.clone() } else { f.meta_noidx.clone() };
+    let arm = match ArrowReaderMetadata::try_new(meta, reader_options(&o)) {
+        Ok(a) => a,
+        Err(_) => return CaseOut { answer: "ERR:build".into(), problems: vec![], info: String::new() },
+    };
+    let mut stream = match apply(ParquetRecordBatchStreamBuilder::new_with_metadata(SeqReader(io.clone()), arm), &o).build() {
+        Ok(s) => s,
+        Err(_) => return CaseOut { answer: "ERR:build".into(), problems: vec![], info: String::new() },
+    };
+    let w = futures::task::noop_waker();
+    let mut cx = Context::from_waker(&w);
+    let mut rows = 0usize;
+    let mut dropped = false;
+    let mut trace = String::new();
+    for i in 0..5_000 {
+        let mut fut = Box::pin(stream.next_row_group());
+        let mut polls = 0;
+        let done = loop {
+            polls += 1;
+            match fut.as_mut().poll(&mut cx) {
+                Poll::Pending => {
+                    if i == k && !dropped {
+                        dropped = true;
+                        trace.push('X'); // cancel: drop the pending future
+                        break false;
+                    }
+                    if polls > 50_000 {
+                        break true;
+                    }
+                }
+                Poll::Ready(Ok(Some(r))) => {
+                    rows += r.map(|b| b.map(|b| b.num_rows()).unwrap_or(0)).sum::<usize>();
+                    trace.push('R');
+                    break false;
+                }
+                Poll::Ready(Ok(None)) => {
+                    trace.push('F');
+                    break true;
+                }
+                Poll::Ready(Err(_)) => {
+                    trace.push('E');
+                    break true;
+                }
+            }
+        };
+        if done {
+            break;
+        }
+    }
+    let verdict = if !dropped { "not-cancelled" } else if rows as i64 == sync_rows { "complete" } else { "truncated-silently" };
+    CaseOut { answer: format!("{} rows={}/{} {}", trace, rows, sync_rows, verdict), problems: vec![], info: format!("probe:{}", verdict) }
+}
+
 fn run_case_full(line: &str) -> CaseOut {
     let t: Vec<&str> = line.split(' ').collect();
     assert_eq!(t[0], "C15");
@@ -911,6 +981,7 @@ fn run_case_full(line: &str) -> CaseOut {
         "pb" => CaseOut { answer: run_pb(t[2].parse().unwrap(), t[3]), problems: vec![], info: String::new() },
         "rd" => run_rd(&t),
         "as" => run_as(&t),
+        "cn" => run_cn(&t),
         _ => CaseOut { answer: "bad-op".into(), problems: vec![], info: String::new() },
     }
 }
@@ -1231,6 +1302,13 @@ fn gen_case(rng: &mut Rng, pool: u64) -> Option<(String, String)> {
     let k = rng.below(10);
     if k < 2 {
         return Some(gen_pb(rng));
+    }
+    if rng.chance(1, 100) {
+        // out-of-domain probe, see `run_cn`
+        let spec = gen_file_spec(rng, pool);
+        let f = file(&spec);
+        let o = gen_opts(rng, &f);
+        return Some((format!("C15 cn {} {} {}", spec, show_opts(&o), rng.usize(3)), "op:cn out-of-domain".into()));
     }
     let spec = gen_file_spec(rng, pool);
     let f = file(&spec);
